@@ -255,8 +255,46 @@ def _tail_if_to_guard(func):
                 break
 
 
+def _simplify_index_arith(func):
+    """N12: inside subscripts, slices and range(): e + 0, 0 + e, e - 0, e * 1, 1 * e  ->  e   (integer index arithmetic only: elsewhere
+    `x + 0` may be a deliberate copy of a tensor)"""
+    for _ in range(4):
+        ids = index_context_ids(func)
+        changed = False
+
+        class _S(ast.NodeTransformer):
+            def visit_BinOp(self, n):
+                nonlocal changed
+                self.generic_visit(n)
+                if id(n) not in ids:
+                    return n
+
+                def is_c(x, v):
+                    return isinstance(x, ast.Constant) and isinstance(x.value, int) and not isinstance(x.value, bool) and x.value == v
+                if isinstance(n.op, ast.Add) and is_c(n.right, 0):
+                    changed = True
+                    return n.left
+                if isinstance(n.op, ast.Add) and is_c(n.left, 0):
+                    changed = True
+                    return n.right
+                if isinstance(n.op, ast.Sub) and is_c(n.right, 0):
+                    changed = True
+                    return n.left
+                if isinstance(n.op, ast.Mult) and is_c(n.right, 1):
+                    changed = True
+                    return n.left
+                if isinstance(n.op, ast.Mult) and is_c(n.left, 1):
+                    changed = True
+                    return n.right
+                return n
+        _S().visit(func)
+        if not changed:
+            break
+
+
 def normalise(func):
     _Normalise().visit(func)
+    _simplify_index_arith(func)
     _split_tuple_assigns(func)
     _forward_temps(func)
     ast.fix_missing_locations(func)
@@ -419,10 +457,18 @@ class Aligner:
                 self.node(vc, vr)
 
     def mapping(self):
-        """injective map current-local -> reference-local, most votes first; identity when unvoted"""
+        """injective map current-local -> reference-local, most votes first; identity when unvoted.  Renaming a local onto a name that is
+        ANOTHER local of the current function (a swap / rotation of names) is only done on clear evidence: at least 3 votes and at least
+        three times the votes for keeping its own name - rules that read names must not be handed a permutation the alignment guessed."""
         out, taken = {}, set()
+        own = {}
+        for (a, b), v in self.votes.items():
+            if a == b:
+                own[a] = v
         for (a, b), v in sorted(self.votes.items(), key=lambda kv: (-kv[1], kv[0])):
             if a in out or b in taken:
+                continue
+            if a != b and b in self.cl and (v < 3 or v < 3 * own.get(a, 0)):
                 continue
             out[a] = b
             taken.add(b)
@@ -503,7 +549,8 @@ def inline_view_aliases(cfunc, rfunc, mapped=()):
     for _ in range(8):
         binds, writes = _written_names(cfunc)
         ndim2 = set()
-        for n in ast.walk(cfunc):
+        for n in list(ast.walk(cfunc)) + [x for x in ast.walk(rfunc) if isinstance(x, ast.Subscript) and isinstance(x.value, ast.Name)
+                                        and x.value.id in params_of(cfunc)]:
             if isinstance(n, ast.Subscript) and isinstance(n.value, ast.Name) and isinstance(n.slice, ast.Tuple) and len(n.slice.elts) >= 2:
                 ndim2.add(n.value.id)
             if isinstance(n, ast.Assign) and len(n.targets) == 1 and isinstance(n.targets[0], ast.Name) and isinstance(n.value, ast.Call) \
@@ -528,7 +575,7 @@ def inline_view_aliases(cfunc, rfunc, mapped=()):
                         continue
                     need = len(idx) + 1
                     if not any(isinstance(n, ast.Subscript) and isinstance(n.value, ast.Name) and n.value.id == A and isinstance(n.slice, ast.Tuple)
-                               and len(n.slice.elts) >= need for n in ast.walk(cfunc)) and len(idx) > 1:
+                               and len(n.slice.elts) >= need for n in list(ast.walk(cfunc)) + list(ast.walk(rfunc))) and len(idx) > 1:
                         continue
                     here = (s.lineno, s.col_offset)
                     names = {A} | {x.id for x in idx if isinstance(x, ast.Name)}
